@@ -40,7 +40,7 @@ func defaultConfig() *RunConfig {
 		MaxSteps:      20_000_000,
 		MaxDecisions:  4000,
 		MaxCallDepth:  400,
-		MaxThreads:    16,
+		MaxThreads:    64,
 		MaxPolls:      64,
 		MaxViolations: 1,
 		Workers:       1,
